@@ -27,7 +27,7 @@ func init() {
 			"no removal of .meta/.docs before sync+rename+directory-sync of the index, nothing published or removed after an injected fault. " +
 			"case = one (corpus, fault or crash point, k); non-trivial = the injection point was reached; distinct = (point, k, configuration)",
 		Assumptions: []string{"crash = os.Exit in a hook; power loss = truncation of files whose content no completed sync covers; directory-entry durability not modelled"},
-		Batches:     tiered(12, 96),
+		Batches:     tiered(16, 128),
 		Run:         runC08,
 		Timeout:     timeoutFor(10*time.Minute, 45*time.Minute),
 	})
